@@ -8,8 +8,8 @@ chunk is not in the pool).
 
 What is *not* proved here and only observed by the correspondence run: heap behaviour of `malloc/free` and of
 kernels (ASan/UBSan stream); that owner pointers are base addresses is used in `release_of_owned_succeeds_partial`.
-The guard `Guarded` excludes exactly one operation: move-assigning onto a `SparseLayout` object that still holds
-arrays — for which `layout_reassign_leaks` proves that the model (and the code, FINDINGS_C20.md F-C20-1) leaks. -/
+All operations of the model preserve the invariant (since /repo commit eef945341 this includes move-assigning onto a
+`SparseLayout` object that still holds arrays, formerly finding F-C20-1). -/
 open FeatModel.Pool
 
 /-- the empty runtime state satisfies the invariant -/
@@ -18,26 +18,26 @@ theorem C20.inv_init : Inv State.init := FeatModel.Pool.inv_init
 /-- every lifetime operation (construct, adopt, range, clone in all five modes incl. cross-type, convert,
     dense<->blocked convert, move construction/assignment/self-move, clear, destroy, format, write, layout
     take/make/assign/drop) preserves the invariant -/
-theorem C20.inv_step (s s' : State) (op : Op) (hi : Inv s) (hg : leakGuard s op) (h : step s op = .ok s') :
-    Inv s' := FeatModel.Pool.inv_step hi hg h
+theorem C20.inv_step (s s' : State) (op : Op) (hi : Inv s) (h : step s op = .ok s') :
+    Inv s' := FeatModel.Pool.inv_step hi h
 
 /-- the invariant holds after every finite history, in every order of destruction -/
-theorem C20.inv_reachable (ops : List Op) (s : State) (hg : Guarded State.init ops)
-    (h : run State.init ops = .ok s) : Inv s := FeatModel.Pool.inv_run FeatModel.Pool.inv_init hg h
+theorem C20.inv_reachable (ops : List Op) (s : State)
+    (h : run State.init ops = .ok s) : Inv s := FeatModel.Pool.inv_run FeatModel.Pool.inv_init h
 
 /-- no leak: once all containers and layouts are gone the pool is empty and `MemoryPool::finalize` succeeds -/
-theorem C20.no_leak (ops : List Op) (s : State) (hg : Guarded State.init ops) (h : run State.init ops = .ok s)
+theorem C20.no_leak (ops : List Op) (s : State) (h : run State.init ops = .ok s)
     (h1 : ∀ x ∈ s.slots, x = none) (h2 : ∀ x ∈ s.lays, x = none) :
     liveChunks s.pool = 0 ∧ finalize s = .ok () := by
-  have h0 := pool_empty_of_no_owner (FeatModel.Pool.inv_run FeatModel.Pool.inv_init hg h) h1 h2
+  have h0 := pool_empty_of_no_owner (FeatModel.Pool.inv_run FeatModel.Pool.inv_init h) h1 h2
   exact ⟨h0, by unfold finalize; simp [h0]⟩
 
 /-- an array stays valid as long as some owning container refers to it -/
-theorem C20.valid_while_owner_lives (ops : List Op) (s : State) (hg : Guarded State.init ops)
+theorem C20.valid_while_owner_lives (ops : List Op) (s : State)
     (h : run State.init ops = .ok s) (a : Nat) (c : Cont) (hs : s.slot a = some c) (hf : c.foreign = false)
     (id off : Nat) (hq : Ptr.at id off ∈ c.elems ++ c.inds) :
     ∃ ch, get s.pool id = some ch ∧ 1 ≤ ch.count := by
-  have hi := FeatModel.Pool.inv_run FeatModel.Pool.inv_init hg h
+  have hi := FeatModel.Pool.inv_run FeatModel.Pool.inv_init h
   obtain ⟨ch, hch⟩ := owned_present hi (mem_ownIds hs hf hq)
   exact ⟨ch, hch, hi.1 id ch hch⟩
 
@@ -74,13 +74,13 @@ theorem C20.write_independent (p : Pool) (id off id' off' n : Nat) (vs : List In
     readArr (writeArr p (.at id off) vs) (.at id' off') n = readArr p (.at id' off') n :=
   write_other_chunk p id off id' off' n vs h
 
-/-- the excluded operation really leaks (FINDINGS_C20.md, F-C20-1): two matrices, one layout object assigned
-    twice, everything destroyed — two chunks stay in the pool and `finalize` exits with status 1 -/
-theorem C20.layout_reassign_leaks :
+/-- the history that leaked two chunks before /repo commit eef945341 (one layout object assigned twice, everything
+    destroyed; former finding F-C20-1) now ends with an empty pool and a clean `finalize` -/
+example :
     ∃ s, run State.init [.mat 0 2 0 0 2 2 1 1 0, .mat 1 2 0 0 2 2 1 1 0, .lay 0 0, .lay 0 1, .ldrop 0,
                          .destroy 0, .destroy 1] = .ok s ∧
-      (∀ x ∈ s.slots, x = none) ∧ (∀ x ∈ s.lays, x = none) ∧ liveChunks s.pool = 2 ∧
-      finalize s = .error .exit1 := by
+      (∀ x ∈ s.slots, x = none) ∧ (∀ x ∈ s.lays, x = none) ∧ liveChunks s.pool = 0 ∧
+      finalize s = .ok () := by
   refine ⟨_, rfl, ?_, ?_, ?_, ?_⟩
   · decide
   · decide
